@@ -367,6 +367,11 @@ theorem usedOk_nodup {u : List (Nat × Nat)} (h : UsedOk u) : (u.map (·.2)).Nod
 
 /-! ## `get_mds` is the serialisation of a chunk tree -/
 
+theorem wfL_of_forall : ∀ (ts : List Riff.Tree), (∀ t ∈ ts, t.wf) → Riff.Tree.wfL ts
+  | [], _ => trivial
+  | t :: ts, h => ⟨h t (by simp), wfL_of_forall ts (fun x hx => h x (by simp [hx]))⟩
+
+
 def entryTree (nS nM : Nat) (mapped envId : Nat) (dat : List Nat) : Riff.Tree :=
   .chunk (if mapped < mdsFile_pcmTag then mdsFile_glob else mdsFile_pcmh) (le32 (entryId nS nM mapped envId) ++ toU8 dat)
 
